@@ -18,6 +18,18 @@ Rate-based variants are held to what the docstrings state:
   adaptive               symmetric R, every state has >= min(k, N-1) recurrences other than itself.
 With missing states the rate-based variants are only required to (a) never mark a missing state
 and (b) be a thresholding of the remaining pairs (the docstrings fix no quantile convention then).
+
+normalize=True ("normalize the time series to zero mean and unit standard deviation", per
+component): the library's stored series must be (x - mean)/std per column within 1e-5 (float32
+arithmetic; population or sample std are both accepted, a constant column only has to stay
+constant), its embedding the delay embedding of that series; the thresholding clauses are then
+evaluated exactly on the states the object holds (so no precision semantics is demanded).  For the
+joint classes the documented per-series tuple of flags is held to its meaning: a series whose flag
+is False keeps its values.
+User-assigned embedding (`obj.embedding = Y`, Y e.g. from RecurrencePlot.legendre_coordinates): a
+following set_* call must give the thresholding of the distances of the rows of Y, with N = len(Y)
+and no stale cached distance matrix.  The values of legendre_coordinates themselves (derivative
+estimates) are outside the property text and are not judged.
 """
 import itertools
 import json
@@ -146,6 +158,104 @@ def consistent_thresholding(R, D, ok_pairs):
     return (not rec) or (not non) or max(rec) < min(non)
 
 
+# ------------------------------------------------------------------ normalisation / assigned embeddings
+
+NTOL = 1e-5      # float32 arithmetic of normalize_time_series
+
+
+def norm_reference(x2):
+    """x2 (n, d) float64 -> ([cand_ddof0, cand_ddof1], constant-column flags); definition
+    (x - mean) / std per column with exactly rounded sums."""
+    n, d = x2.shape
+    cands = [np.zeros((n, d)), np.zeros((n, d))]
+    const = []
+    for c in range(d):
+        col = [float(v) for v in x2[:, c]]
+        m = math.fsum(col) / n
+        dev = [v - m for v in col]
+        ss = math.fsum(v * v for v in dev)
+        const.append(all(v == col[0] for v in col))
+        for ddof in (0, 1):
+            if const[-1] or n - ddof <= 0:
+                cands[ddof][:, c] = 0.0
+            else:
+                sd = math.sqrt(ss / (n - ddof))
+                cands[ddof][:, c] = [v / sd for v in dev]
+    return cands, const
+
+
+def normalized_series_ok(x2, lib):
+    """Oracle series for the library's normalised series `lib`, or None.  Constant columns (unit
+    std unattainable) only have to stay constant and are taken over from the library."""
+    lib = np.asarray(lib, dtype=np.float64)
+    if lib.shape != x2.shape or not np.isfinite(lib).all():
+        return None
+    cands, const = norm_reference(x2)
+    out = np.empty_like(x2)
+    for c in range(x2.shape[1]):
+        if const[c]:
+            if lib.shape[0] and float(lib[:, c].max() - lib[:, c].min()) > NTOL:
+                return None
+            out[:, c] = lib[:, c]
+            continue
+        for cand in cands:
+            if np.all(np.abs(lib[:, c] - cand[:, c]) <= NTOL * np.maximum(1.0, np.abs(cand[:, c]))):
+                out[:, c] = cand[:, c]
+                break
+        else:
+            return None
+    return out
+
+
+def states_close(E, want):
+    E = np.asarray(E, dtype=np.float64)
+    return E.shape == want.shape and bool(np.all(np.abs(E - want) <= NTOL * np.maximum(1.0, np.abs(want))))
+
+
+def oracle_embed(series2, dim, tau):
+    return S.embed(series2[:, 0], dim, tau) if dim else series2
+
+
+def resolve_normalized(rep, cname, wit, x, lib_series, lib_states, dim, tau, flag=True, prune=None):
+    """The states a normalize=... construction must hold, checked against the definition; returns
+    the library's states as float64 (the thresholding clauses are then exact) or None."""
+    x2 = np.asarray(x, dtype=np.float64).reshape(len(x), -1)
+    lib_series = np.asarray(lib_series, dtype=np.float64)
+    if flag:
+        ref = normalized_series_ok(x2, lib_series)
+        if ref is None:
+            rep.fail(f"{cname}/normalize/zero-mean-unit-std-per-component", wit,
+                     f"series {x2.tolist()} stored as {lib_series.tolist()}; want "
+                     f"{norm_reference(x2)[0][0].tolist()} (population std; sample std also accepted)")
+            return None
+    else:
+        ref = x2
+        if lib_series.shape != x2.shape or not np.array_equal(lib_series, x2):
+            rep.fail(f"{cname}/normalize/per-series-flag", wit,
+                     f"flag False: series {x2.tolist()} stored as {lib_series.tolist()}")
+            return None
+    want = oracle_embed(ref, dim, tau)
+    if prune is not None:
+        want = want[:prune]
+    if not states_close(lib_states, want):
+        rep.fail(f"{cname}/normalize/embedding-of-normalized-series", wit,
+                 f"got {np.asarray(lib_states).tolist()} want {want.tolist()}")
+        return None
+    return np.array(lib_states, dtype=np.float64)
+
+
+def assigned_embedding(C, x, spec):
+    """The array a user assigns to obj.embedding: explicit rows or legendre_coordinates(x)."""
+    if "Y" in spec:
+        return np.array(spec["Y"], dtype=np.float64).reshape(len(spec["Y"]), -1)
+    from bounded.common import quiet
+    t = None if spec.get("t") is None else np.array(spec["t"], dtype=np.float64)
+    with quiet():
+        Y = C["RecurrencePlot"].legendre_coordinates(np.array(x, dtype=np.float64), dim=spec["dim"],
+                                                     t=t, p=spec.get("p"), tau_w=spec.get("tau_w", "est"))
+    return np.array(Y, dtype=np.float64)
+
+
 # ------------------------------------------------------------------ variant lists
 
 def pick_thresholds(D, cap=7):
@@ -160,8 +270,19 @@ def pick_thresholds(D, cap=7):
 RATES = (0.0, 0.25, 0.3, 0.5, 1.0)
 
 
-def rp_variants(D, N, scalar, anymiss, rich=True):
-    out = [["threshold", t] for t in pick_thresholds(D)]
+def mid_thresholds(D, cap=5):
+    """Thresholds strictly between distinct distances (gap > 1e-3), the smallest distance itself is
+    left out; plus one above the maximum.  Used where the states are only known to ~1e-5."""
+    vals = sorted({round(float(v), 6) for v in np.asarray(D).ravel() if not math.isnan(v)})
+    mids = [(a + b) / 2.0 for a, b in zip(vals, vals[1:]) if b - a > 1e-3]
+    if len(mids) > cap:
+        idx = sorted({0, 1, len(mids) // 2, len(mids) - 2, len(mids) - 1})
+        mids = [mids[i] for i in idx]
+    return mids + [(vals[-1] if vals else 0.0) + 1.0]
+
+
+def rp_variants(D, N, scalar, anymiss, rich=True, thresholds=None):
+    out = [["threshold", t] for t in (pick_thresholds(D) if thresholds is None else thresholds)]
     if scalar and not anymiss:
         out += [["threshold_std", v] for v in ((0.5, 1.0, 2.0) if rich else (1.0,))]
     out += [["recurrence_rate", r] for r in (RATES if rich else (0.3, 1.0))]
@@ -189,26 +310,55 @@ def run_rp(rep, C, w):
     mv = bool(w.get("missing_values", False))
     exact = bool(w.get("exact", True))
     tol = 0.0 if exact else GUARD
+    kw = dict(metric=metric, silence_level=3, missing_values=mv)
+    if dim:
+        kw.update(dim=dim, tau=tau)
     states = states_of(x, dim, tau)
+    std_series = x
+    assign = w.get("assign")
+    if cname == "RecurrenceNetwork" and len(states) - (sum(S.is_missing(states)) if mv else 0) < 2:
+        rep.skip(SINGLE_NODE)
+        return
+    if w.get("normalize"):
+        # states = what the object holds, after checking them against the definition of normalize
+        kw["normalize"] = True
+        rep.case()
+        try:
+            probe = cls(x, **kw, threshold=0.123)
+        except Exception as e:                                   # noqa: BLE001
+            rep.fail(f"{cname}/normalize/constructible", w, f"{type(e).__name__}: {e}")
+            return
+        states = resolve_normalized(rep, cname, w, x, probe.time_series, probe.embedding, dim, tau)
+        if states is None:
+            return
+        std_series = np.asarray(probe.time_series, dtype=np.float64)
+    if assign:
+        states = assigned_embedding(C, x, assign)
+        if states.ndim != 2 or not len(states) or not np.isfinite(states).all():
+            rep.skip("legendre_coordinates returned a non-finite or empty array: case not used")
+            return
+        if cname == "RecurrenceNetwork" and len(states) < 2:
+            rep.skip(SINGLE_NODE)
+            return
+    lab = cname + ("@assigned-embedding" if assign else "@normalize" if w.get("normalize") else "")
     N = len(states)
     miss = S.is_missing(states)
     anymiss = any(miss)
     scalar = x.ndim == 1
     D = S.distance_matrix(states, states, metric)
     okpairs = [(i, j) for i in range(N) for j in range(N) if not (miss[i] or miss[j])]
-    kw = dict(metric=metric, silence_level=3, missing_values=mv)
-    if dim:
-        kw.update(dim=dim, tau=tau)
     rqa_every = int(w.get("rqa_every", 1))
     shared = None
     prev = None
     first = True
-    if cname == "RecurrenceNetwork" and N - (sum(miss) if mv else 0) < 2:
-        rep.skip(SINGLE_NODE)
-        return
-    for vi, (kind, value, via) in enumerate(w["variants"]):
+    variants = w.get("variants")
+    if variants is None:         # assigned embedding: thresholds chosen from its own distances
+        variants = [v for v in rp_variants(D, N, False, anymiss, rich=True,
+                                           thresholds=pick_thresholds(D) if exact else mid_thresholds(D))
+                    if v[2] == "setter"]
+    for vi, (kind, value, via) in enumerate(variants):
         wit = dict(w, variants=([prev] if (via == "setter" and prev) else []) + [[kind, value, via]])
-        P = f"{cname}/{kind}"
+        P = f"{lab}/{kind}"
         try:
             if via == "ctor":
                 obj = cls(x, **kw, **{kind: value})
@@ -216,6 +366,10 @@ def run_rp(rep, C, w):
                 if shared is None:
                     shared = cls(x, **kw, threshold=0.123)
                     shared.diagline_dist(); shared.vertline_dist(); shared.recurrence_rate()  # noqa: E702
+                    if assign:
+                        for m in S.METRICS:          # cached distances of the old embedding
+                            shared.distance_matrix(m)
+                        shared.embedding = np.array(states)
                 getattr(shared, SETTER[kind])(value)
                 obj = shared
                 prev = [kind, value, via]
@@ -227,17 +381,17 @@ def run_rp(rep, C, w):
         # -- sizes / representation
         rep.case()
         if R is None or np.asarray(R).shape != (N, N):
-            rep.fail(f"{cname}/matrix-order", wit, f"R shape {None if R is None else R.shape}, states {N}")
+            rep.fail(f"{lab}/matrix-order", wit, f"R shape {None if R is None else R.shape}, states {N}")
             continue
         if not is_binary(R):
-            rep.fail(f"{cname}/matrix-binary", wit, f"dtype {R.dtype}, values {np.unique(R).tolist()}")
+            rep.fail(f"{lab}/matrix-binary", wit, f"dtype {R.dtype}, values {np.unique(R).tolist()}")
             continue
         if first:
             first = False
             rep.case()
             E = np.asarray(obj.embedding)
             if E.shape != states.shape or not np.array_equal(E, states, equal_nan=True):
-                rep.fail(f"{cname}/embedding", wit, f"got {E.tolist()} want {states.tolist()}")
+                rep.fail(f"{lab}/embedding", wit, f"got {E.tolist()} want {states.tolist()}")
             for m in S.METRICS if w.get("all_metrics", True) else (metric,):
                 Dl = np.asarray(obj.distance_matrix(m))
                 Dm = D if m == metric else S.distance_matrix(states, states, m)
@@ -249,7 +403,7 @@ def run_rp(rep, C, w):
                             bad = True
                             break
                 if bad:
-                    rep.fail(f"{cname}/distance_matrix", dict(wit, distance_metric=m),
+                    rep.fail(f"{lab}/distance_matrix", dict(wit, distance_metric=m),
                              f"{m}: got {Dl.tolist()} want {Dm.tolist()}")
         # -- the variant's clause
         rep.case()
@@ -262,7 +416,7 @@ def run_rp(rep, C, w):
             if not mat_equal(R, want, free):
                 rep.fail(f"{P}/strict-below-threshold", wit, f"got {R.tolist()} want {want.tolist()}")
         elif kind == "threshold_std":
-            thr = value * pstd(x)
+            thr = value * pstd(std_series)
             want, free = thr_with_free(D, thr, GUARD_STD)
             if not mat_equal(R, want, free):
                 rep.fail(f"{P}/strict-below-std-threshold", wit, f"thr {thr}: got {R.tolist()} want {want.tolist()}")
@@ -306,7 +460,8 @@ def run_rp(rep, C, w):
             need = min(int(value), N - 1)
             if any(v < need for v in nb):
                 rep.fail(f"{P}/at-least-k-neighbours", wit, f"neighbours {nb} < {need}: {R.tolist()}")
-        key = (cname, repr(w["x"]), dim, tau, metric, mv, kind, value)
+        key = (cname, repr(w["x"]), dim, tau, metric, mv, kind, value,
+               bool(w.get("normalize")), repr(assign) if assign else None)
         rep.case(repr(key), nontrivial=nontrivial(R),
                  sample={"cls": cname, "x": w["x"], "dim": dim, "tau": tau, "metric": metric,
                          kind: value, "R": np.asarray(R).tolist()})
@@ -321,17 +476,17 @@ def run_rp(rep, C, w):
                 want = want[np.ix_(keep, keep)]
             if A.shape != want.shape or (A != want).any():
                 tag = "missing/" if (mv and anymiss) else ""
-                rep.fail(f"{cname}/{tag}{via}/adjacency-is-R-without-diagonal", wit, f"adjacency {A.tolist()} R {R.tolist()}")
+                rep.fail(f"{lab}/{tag}{via}/adjacency-is-R-without-diagonal", wit, f"adjacency {A.tolist()} R {R.tolist()}")
             wantdir = kind == "local_recurrence_rate"
             if bool(obj.directed) != wantdir:
-                rep.fail(f"{cname}/{via}/directed-flag", wit, f"directed={obj.directed} for {kind}")
+                rep.fail(f"{lab}/{via}/directed-flag", wit, f"directed={obj.directed} for {kind}")
             if int(obj.N) != np.asarray(obj.adjacency).shape[0]:
-                rep.fail(f"{cname}/{via}/N-equals-adjacency-order", wit, f"N={obj.N}")
+                rep.fail(f"{lab}/{via}/N-equals-adjacency-order", wit, f"N={obj.N}")
         # -- every quantification method applicable and consistent with the matrix held
         if vi % rqa_every == 0:
             rep.case()
             if isnet and mv and anymiss and int(obj.N) != N:
-                rep.fail(f"{cname}/missing/rqa-size-consistent-with-R", wit,
+                rep.fail(f"{lab}/missing/rqa-size-consistent-with-R", wit,
                          f"N={obj.N} but recurrence_matrix() is {N}x{N}; recurrence_rate()={obj.recurrence_rate()} "
                          f"R.mean()={np.asarray(R).mean()}")
             else:
@@ -339,7 +494,7 @@ def run_rp(rep, C, w):
                                                       lmins=[2] if vi else sorted({1, 2, max(N, 1)}),
                                                       resample=(vi == 0)):
                     if not ok:
-                        rep.fail(f"{cname}/rqa/{clause}", wit, detail)
+                        rep.fail(f"{lab}/rqa/{clause}", wit, detail)
 
 
 # ------------------------------------------------------------------ CrossRecurrencePlot
@@ -351,13 +506,13 @@ CRP_NOTIMPL = ["diagline_dist", "vertline_dist", "white_vertline_dist", "max_dia
                "rqa_summary"]
 
 
-def check_crp_object(rep, obj, wit, P, Dxy, kind, value, tol, Nx, Ny):
+def check_crp_object(rep, obj, wit, P, Dxy, kind, value, tol, Nx, Ny, lab="CrossRecurrencePlot"):
     CR = obj.recurrence_matrix()
     if CR is None or np.asarray(CR).shape != (Nx, Ny) or int(obj.N) != Nx or int(obj.M) != Ny:
-        rep.fail("CrossRecurrencePlot/sizes", wit, f"CR {None if CR is None else CR.shape} N={obj.N} M={obj.M} want {(Nx, Ny)}")
+        rep.fail(f"{lab}/sizes", wit, f"CR {None if CR is None else CR.shape} N={obj.N} M={obj.M} want {(Nx, Ny)}")
         return None
     if not is_binary(CR):
-        rep.fail("CrossRecurrencePlot/matrix-binary", wit, f"{CR.dtype}")
+        rep.fail(f"{lab}/matrix-binary", wit, f"{CR.dtype}")
         return None
     if kind == "threshold":
         want, free = thr_with_free(Dxy, value, tol)
@@ -373,13 +528,13 @@ def check_crp_object(rep, obj, wit, P, Dxy, kind, value, tol, Nx, Ny):
     for name in ("recurrence_rate", "cross_recurrence_rate"):
         v = getattr(obj, name)()
         if abs(v - want_rr) > 1e-12:
-            rep.fail(f"CrossRecurrencePlot/{name}", wit, f"got {v} want {want_rr}")
+            rep.fail(f"{lab}/{name}", wit, f"got {v} want {want_rr}")
     up = sum(int(CR[i, j]) for i in range(Nx) for j in range(Ny) if j > i)
     lo = sum(int(CR[i, j]) for i in range(Nx) for j in range(Ny) if j < i)
     if up + lo:
         b = obj.balance()
         if abs(b - (up - lo) / float(up + lo)) > 1e-12:
-            rep.fail("CrossRecurrencePlot/balance", wit, f"got {b} want {(up-lo)/(up+lo)}")
+            rep.fail(f"{lab}/balance", wit, f"got {b} want {(up-lo)/(up+lo)}")
     return CR
 
 
@@ -391,16 +546,29 @@ def run_crp(rep, C, w):
     metric = w["metric"]
     tol = 0.0 if w.get("exact", True) else GUARD
     sx, sy = states_of(x, dim, tau), states_of(y, dim, tau)
-    Nx, Ny = len(sx), len(sy)
-    Dxy = S.distance_matrix(sx, sy, metric)
     kw = dict(metric=metric, silence_level=3)
     if dim:
         kw.update(dim=dim, tau=tau)
+    if w.get("normalize"):
+        kw["normalize"] = True
+        rep.case()
+        try:
+            probe = cls(x, y, **kw, threshold=0.123)
+        except Exception as e:                                   # noqa: BLE001
+            rep.fail("CrossRecurrencePlot/normalize/constructible", w, f"{type(e).__name__}: {e}")
+            return
+        sx = resolve_normalized(rep, "CrossRecurrencePlot", w, x, probe.x, probe.x_embedded, dim, tau)
+        sy = resolve_normalized(rep, "CrossRecurrencePlot", w, y, probe.y, probe.y_embedded, dim, tau)
+        if sx is None or sy is None:
+            return
+    lab = "CrossRecurrencePlot" + ("@normalize" if w.get("normalize") else "")
+    Nx, Ny = len(sx), len(sy)
+    Dxy = S.distance_matrix(sx, sy, metric)
     shared = None
     first = True
     for kind, value, via in w["variants"]:
         wit = dict(w, variants=[[kind, value, via]])
-        P = f"CrossRecurrencePlot/{kind}"
+        P = f"{lab}/{kind}"
         rep.case()
         try:
             if via == "ctor":
@@ -413,10 +581,11 @@ def run_crp(rep, C, w):
         except Exception as e:                                   # noqa: BLE001
             rep.fail(f"{P}/constructible", wit, f"{type(e).__name__}: {e}")
             continue
-        CR = check_crp_object(rep, obj, wit, P, Dxy, kind, value, tol, Nx, Ny)
+        CR = check_crp_object(rep, obj, wit, P, Dxy, kind, value, tol, Nx, Ny, lab)
         if CR is None:
             continue
-        rep.case(repr(("CRP", w["x"], w["y"], dim, tau, metric, kind, value)), nontrivial=nontrivial(CR),
+        rep.case(repr(("CRP", w["x"], w["y"], dim, tau, metric, kind, value, bool(w.get("normalize")))),
+                 nontrivial=nontrivial(CR),
                  sample={"cls": "CrossRecurrencePlot", "x": w["x"], "y": w["y"], kind: value, "CR": CR.tolist()})
         if first:
             first = False
@@ -425,11 +594,11 @@ def run_crp(rep, C, w):
                 Dl = np.asarray(obj.distance_matrix(m))
                 Dm = S.distance_matrix(sx, sy, m)
                 if Dl.shape != Dm.shape or not np.allclose(Dl, Dm, rtol=0 if tol == 0 else 1e-12, atol=0):
-                    rep.fail("CrossRecurrencePlot/distance_matrix", dict(wit, distance_metric=m),
+                    rep.fail(f"{lab}/distance_matrix", dict(wit, distance_metric=m),
                              f"{m}: got {Dl.tolist()} want {Dm.tolist()}")
             for xe, se, nm in ((obj.x_embedded, sx, "x"), (obj.y_embedded, sy, "y")):
                 if not np.array_equal(np.asarray(xe), se):
-                    rep.fail("CrossRecurrencePlot/embedding", wit, f"{nm}: got {np.asarray(xe).tolist()} want {se.tolist()}")
+                    rep.fail(f"{lab}/embedding", wit, f"{nm}: got {np.asarray(xe).tolist()} want {se.tolist()}")
             rep.case()
             for name in CRP_NOTIMPL:
                 try:
@@ -457,7 +626,6 @@ def run_jrp(rep, C, w):
     sy = states_of(y, dim[1] if dim else None, tau[1] if dim else None)
     N0 = min(len(sx), len(sy))
     sx, sy = sx[:N0], sy[:N0]
-    Dx, Dy = S.distance_matrix(sx, sx, mx), S.distance_matrix(sy, sy, my)
     N = N0 - abs(lag)
     if cname == "JointRecurrenceNetwork" and N < 2:
         rep.skip(SINGLE_NODE)
@@ -465,11 +633,32 @@ def run_jrp(rep, C, w):
     kw = dict(metric=(mx, my), lag=lag, silence_level=3)
     if dim:
         kw.update(dim=tuple(dim), tau=tuple(tau))
+    stdx, stdy = x, y
+    nflag = w.get("normalize")
+    if nflag is not None:
+        # documented: "tuple of bool ... Give separately for each time series" (default: one bool)
+        kw["normalize"] = tuple(nflag) if isinstance(nflag, (list, tuple)) else bool(nflag)
+        fx, fy = (bool(nflag[0]), bool(nflag[1])) if isinstance(nflag, (list, tuple)) else (bool(nflag),) * 2
+        rep.case()
+        try:
+            probe = cls(x, y, **kw, threshold=(0.123, 0.123))
+        except Exception as e:                                   # noqa: BLE001
+            rep.fail(f"{cname}/normalize/constructible", w, f"{type(e).__name__}: {e}")
+            return
+        sx = resolve_normalized(rep, cname, w, x, probe.x, probe.x_embedded, dim[0] if dim else None,
+                                tau[0] if dim else None, flag=fx, prune=N0)
+        sy = resolve_normalized(rep, cname, w, y, probe.y, probe.y_embedded, dim[1] if dim else None,
+                                tau[1] if dim else None, flag=fy, prune=N0)
+        if sx is None or sy is None:
+            return
+        stdx, stdy = np.asarray(probe.x, dtype=np.float64), np.asarray(probe.y, dtype=np.float64)
+    lab = cname + ("@normalize" if nflag is not None else "")
+    Dx, Dy = S.distance_matrix(sx, sx, mx), S.distance_matrix(sy, sy, my)
     shared = None
     prev = None
     for vi, (kind, value, via) in enumerate(w["variants"]):
         wit = dict(w, variants=([prev] if (via == "setter" and prev) else []) + [[kind, value, via]])
-        P = f"{cname}/{kind}"
+        P = f"{lab}/{kind}"
         rep.case()
         try:
             if via == "ctor":
@@ -486,12 +675,12 @@ def run_jrp(rep, C, w):
             continue
         JR = obj.recurrence_matrix()
         if JR is None or np.asarray(JR).shape != (N, N) or int(obj.N) != N:
-            rep.fail(f"{cname}/sizes", wit, f"JR {None if JR is None else JR.shape} N={obj.N} want {N}")
+            rep.fail(f"{lab}/sizes", wit, f"JR {None if JR is None else JR.shape} N={obj.N} want {N}")
             continue
         if kind == "threshold":
             alts = [(thr_with_free(Dx, value[0], tol), thr_with_free(Dy, value[1], tol))]
         elif kind == "threshold_std":
-            alts = [(thr_with_free(Dx, value[0] * pstd(x), GUARD_STD), thr_with_free(Dy, value[1] * pstd(y), GUARD_STD))]
+            alts = [(thr_with_free(Dx, value[0] * pstd(stdx), GUARD_STD), thr_with_free(Dy, value[1] * pstd(stdy), GUARD_STD))]
         else:
             alts = [(thr_with_free(Dx, qx, tol), thr_with_free(Dy, qy, tol))
                     for qx in rate_candidates(Dx, value[0]) for qy in rate_candidates(Dy, value[1])]
@@ -506,22 +695,22 @@ def run_jrp(rep, C, w):
             (Rx, _), (Ry, _) = alts[0]
             rep.fail(f"{P}/product-of-shifted-thresholded-matrices", wit,
                      f"got {np.asarray(JR).tolist()} want {S.joint_matrix(Rx, Ry, lag).tolist()}")
-        rep.case(repr((cname, w["x"], w["y"], dim, tau, mx, my, lag, kind, value)), nontrivial=nontrivial(JR),
+        rep.case(repr((cname, w["x"], w["y"], dim, tau, mx, my, lag, kind, value, repr(nflag))), nontrivial=nontrivial(JR),
                  sample={"cls": cname, "x": w["x"], "y": w["y"], "lag": lag, kind: value, "JR": np.asarray(JR).tolist()})
         if cname == "JointRecurrenceNetwork":
             rep.case()
             A = np.asarray(obj.adjacency)
             want = S.without_diagonal(JR)
             if A.shape != want.shape or (A != want).any():
-                rep.fail(f"{cname}/{via}/adjacency-is-JR-without-diagonal", wit, f"adjacency {A.tolist()} JR {np.asarray(JR).tolist()}")
+                rep.fail(f"{lab}/{via}/adjacency-is-JR-without-diagonal", wit, f"adjacency {A.tolist()} JR {np.asarray(JR).tolist()}")
             if int(obj.N) != A.shape[0]:
-                rep.fail(f"{cname}/{via}/N-equals-adjacency-order", wit, f"N={obj.N}")
+                rep.fail(f"{lab}/{via}/N-equals-adjacency-order", wit, f"N={obj.N}")
         if vi % int(w.get("rqa_every", 1)) == 0 and N >= 1:
             rep.case()
             for clause, ok, detail in rqa_clauses(obj, JR, None, lmins=[2] if vi else sorted({1, 2, N}),
                                                   resample=(vi == 0)):
                 if not ok:
-                    rep.fail(f"{cname}/rqa/{clause}", wit, detail)
+                    rep.fail(f"{lab}/rqa/{clause}", wit, detail)
 
 
 # ------------------------------------------------------------------ InterSystemRecurrenceNetwork
@@ -535,15 +724,30 @@ def run_isrn(rep, C, w):
     tol = 0.0 if w.get("exact", True) else GUARD
     sx = states_of(x, dim, tau[0] if dim else None)
     sy = states_of(y, dim, tau[1] if dim else None)
-    Nx, Ny = len(sx), len(sy)
-    Dx, Dy = S.distance_matrix(sx, sx, metric), S.distance_matrix(sy, sy, metric)
-    Dxy = S.distance_matrix(sx, sy, metric)
     kw = dict(metric=metric, silence_level=3)
     if dim:
         kw.update(dim=dim, tau=tuple(tau))
+    if w.get("normalize"):
+        kw["normalize"] = True
+        rep.case()
+        try:
+            probe = cls(x, y, **kw, threshold=(0.123, 0.123, 0.123))
+        except Exception as e:                                   # noqa: BLE001
+            rep.fail("InterSystemRecurrenceNetwork/normalize/constructible", w, f"{type(e).__name__}: {e}")
+            return
+        sx = resolve_normalized(rep, "InterSystemRecurrenceNetwork", w, x, probe.x, probe.x_embedded,
+                                dim, tau[0] if dim else None)
+        sy = resolve_normalized(rep, "InterSystemRecurrenceNetwork", w, y, probe.y, probe.y_embedded,
+                                dim, tau[1] if dim else None)
+        if sx is None or sy is None:
+            return
+    lab = "InterSystemRecurrenceNetwork" + ("@normalize" if w.get("normalize") else "")
+    Nx, Ny = len(sx), len(sy)
+    Dx, Dy = S.distance_matrix(sx, sx, metric), S.distance_matrix(sy, sy, metric)
+    Dxy = S.distance_matrix(sx, sy, metric)
     for vi, (kind, value, via) in enumerate(w["variants"]):
         wit = dict(w, variants=[[kind, value, via]])
-        P = f"InterSystemRecurrenceNetwork/{kind}"
+        P = f"{lab}/{kind}"
         rep.case()
         try:
             obj = cls(x, y, **kw, **{kind: tuple(value)})
@@ -552,7 +756,7 @@ def run_isrn(rep, C, w):
             continue
         A = np.asarray(obj.adjacency)
         if (int(obj.N_x), int(obj.N_y), int(obj.N)) != (Nx, Ny, Nx + Ny) or A.shape != (Nx + Ny, Nx + Ny):
-            rep.fail("InterSystemRecurrenceNetwork/sizes", wit,
+            rep.fail(f"{lab}/sizes", wit,
                      f"N_x={obj.N_x} N_y={obj.N_y} N={obj.N} adjacency {A.shape}; want {Nx},{Ny},{Nx+Ny}")
             continue
         if kind == "threshold":
@@ -582,35 +786,35 @@ def run_isrn(rep, C, w):
                     else:
                         full[i, j] = Cxy[j, i - Nx]
             if (A != S.without_diagonal(full)).any():
-                rep.fail("InterSystemRecurrenceNetwork/adjacency-is-block-matrix-without-diagonal", wit,
+                rep.fail(f"{lab}/adjacency-is-block-matrix-without-diagonal", wit,
                          f"adjacency {A.tolist()} want {S.without_diagonal(full).tolist()}")
             M = np.asarray(obj.inter_system_recurrence_matrix())
             if M.shape != full.shape or (M != full).any():
-                rep.fail("InterSystemRecurrenceNetwork/inter_system_recurrence_matrix", wit, f"got {M.tolist()} want {full.tolist()}")
+                rep.fail(f"{lab}/inter_system_recurrence_matrix", wit, f"got {M.tolist()} want {full.tolist()}")
             irr = obj.internal_recurrence_rates()
             want = (Rx.sum() / float(Nx * Nx), Ry.sum() / float(Ny * Ny))
             if abs(irr[0] - want[0]) > 1e-12 or abs(irr[1] - want[1]) > 1e-12:
-                rep.fail("InterSystemRecurrenceNetwork/internal_recurrence_rates", wit, f"got {irr} want {want}")
+                rep.fail(f"{lab}/internal_recurrence_rates", wit, f"got {irr} want {want}")
             crr = obj.cross_recurrence_rate()
             if abs(crr - Cxy.sum() / float(Nx * Ny)) > 1e-12:
-                rep.fail("InterSystemRecurrenceNetwork/cross_recurrence_rate", wit, f"got {crr}")
-        rep.case(repr(("ISRN", w["x"], w["y"], dim, tau, metric, kind, value)), nontrivial=nontrivial(A),
+                rep.fail(f"{lab}/cross_recurrence_rate", wit, f"got {crr}")
+        rep.case(repr(("ISRN", w["x"], w["y"], dim, tau, metric, kind, value, bool(w.get("normalize")))), nontrivial=nontrivial(A),
                  sample={"cls": "InterSystemRecurrenceNetwork", "x": w["x"], "y": w["y"], kind: value, "A": A.tolist()})
         rep.case()
         for nm, sub in (("rp_x", obj.rp_x), ("rp_y", obj.rp_y)):
             Rs = sub.recurrence_matrix()
             for clause, ok, detail in rqa_clauses(sub, Rs, None, lmins=[1, 2], lags=False):
                 if not ok:
-                    rep.fail(f"InterSystemRecurrenceNetwork/{nm}/rqa/{clause}", wit, detail)
+                    rep.fail(f"{lab}/{nm}/rqa/{clause}", wit, detail)
         for name in ("cross_global_clustering_xy", "cross_global_clustering_yx",
                      "cross_transitivity_xy", "cross_transitivity_yx"):
             try:
                 getattr(obj, name)()
             except Exception as e:                               # noqa: BLE001
-                rep.fail(f"InterSystemRecurrenceNetwork/{name}/applicable", wit, f"{type(e).__name__}: {e}")
+                rep.fail(f"{lab}/{name}/applicable", wit, f"{type(e).__name__}: {e}")
         try:
             obj.crp_xy.diagline_dist()
-            rep.fail("InterSystemRecurrenceNetwork/crp_xy/line-statistics-documented-NotImplemented", wit, "returned")
+            rep.fail(f"{lab}/crp_xy/line-statistics-documented-NotImplemented", wit, "returned")
         except NotImplementedError:
             pass
 
@@ -643,16 +847,34 @@ def both(vs):
     return [v + ["ctor"] for v in vs] + [v + ["setter"] for v in vs]
 
 
-def rp_case(cls, x, emb, metric, mv=False, exact=True, rich=True, rqa_every=1, all_metrics=True):
-    st = states_of(x, emb[0] if emb else None, emb[1] if emb else None)
+def norm_or_raw(x, flag=True):
+    """Oracle-normalised (population std) 2-D series, only used to pick thresholds for a case."""
+    x2 = np.asarray(x, dtype=np.float64).reshape(len(x), -1)
+    return norm_reference(x2)[0][0] if flag else x2
+
+
+def rp_case(cls, x, emb, metric, mv=False, exact=True, rich=True, rqa_every=1, all_metrics=True,
+            normalize=False):
+    if normalize:
+        st = oracle_embed(norm_or_raw(x), emb[0] if emb else None, emb[1] if emb else None)
+    else:
+        st = states_of(x, emb[0] if emb else None, emb[1] if emb else None)
     D = S.distance_matrix(st, st, metric)
     anymiss = any(S.is_missing(st))
     w = {"cls": cls, "x": x, "metric": metric, "missing_values": mv, "exact": exact,
          "rqa_every": rqa_every, "all_metrics": all_metrics,
-         "variants": rp_variants(D, len(st), np.asarray(x).ndim == 1, anymiss, rich)}
+         "variants": rp_variants(D, len(st), np.asarray(x).ndim == 1, anymiss, rich,
+                                 thresholds=mid_thresholds(D) if normalize else None)}
+    if normalize:
+        w.update(normalize=True, exact=False)
     if emb:
         w.update(dim=emb[0], tau=emb[1])
     return w
+
+
+def assign_case(cls, x, spec, metric, exact, rqa_every=2):
+    return {"cls": cls, "x": x, "metric": metric, "missing_values": False, "exact": exact,
+            "rqa_every": rqa_every, "all_metrics": True, "assign": spec}
 
 
 def pair_thresholds(Dx, Dy):
